@@ -116,8 +116,73 @@ def one(c):
     return out
 
 
+def arrays(c):
+    dt = c.get('dtype') or {}
+    return (np.array(c['ra1'], dtype=dt.get('ra1', 'd')), np.array(c['dec1'], dtype=dt.get('dec1', 'd')),
+            np.array(c['ra2'], dtype=dt.get('ra2', 'd')), np.array(c['dec2'], dtype=dt.get('dec2', 'd')))
+
+
+def plain_call(c, ra1, dec1, ra2, dec2):
+    kw = {}
+    if c.get('chunksize') is not None:
+        kw['chunksize'] = float(c['chunksize'])
+    with warnings.catch_warnings():
+        warnings.simplefilter('ignore')
+        return SG.spherematch(ra1, dec1, ra2, dec2, float(c['L']), maxmatch=int(c['maxmatch']), **kw)
+
+
+def screen(c):
+    """uncertified screening (maxmatch = 0 cases): is the returned pair set the brute-force one?  -> True = suspicious"""
+    ra1, dec1, ra2, dec2 = arrays(c)
+    try:
+        m1, m2, d12 = plain_call(c, ra1, dec1, ra2, dec2)
+    except Exception:  # noqa: BLE001
+        return True
+    got = sorted(zip([int(x) for x in m1], [int(x) for x in m2]))
+    if int(c['maxmatch']) != 0:
+        return len(set(got)) != len(got)
+    L = float(c['L'])
+    want = []
+    for i in range(ra1.size):
+        s = SG.gcirc(ra1[i], dec1[i], ra2, dec2, units=2) / 3600.0
+        want += [(i, int(k)) for k in np.nonzero(s < L)[0]]
+    return got != sorted(want)
+
+
+def history(calls):
+    """several calls in THIS process, one after the other, with the unwrapped module: every returned object is kept and
+    only read after the last call (so a result that a later call overwrites shows up); caller-owned input arrays are
+    compared with copies taken before each call"""
+    held = []
+    out = []
+    for c in calls:
+        arrs = arrays(c)
+        before = [a.copy() for a in arrs]
+        r = {'sep': sep_table(*arrs)}
+        try:
+            res = plain_call(c, *arrs)
+            r['immediate'] = {'m1': [int(x) for x in res[0]], 'm2': [int(x) for x in res[1]], 'd': [float(x) for x in res[2]]}
+            held.append(res)
+        except Exception as e:  # noqa: BLE001
+            r['err'] = type(e).__name__
+            r['msg'] = str(e)[:160]
+            held.append(None)
+        r['inputs_unchanged'] = all(a.dtype == b.dtype and a.tobytes() == b.tobytes() for a, b in zip(arrs, before))
+        out.append(r)
+    for r, res in zip(out, held):
+        if res is not None:
+            r['ok'] = {'m1': [int(x) for x in res[0]], 'm2': [int(x) for x in res[1]], 'd': [float(x) for x in res[2]]}
+    return out
+
+
 def main():
     calls = json.load(sys.stdin)
+    if isinstance(calls, dict) and calls.get('mode') == 'screen':
+        json.dump({'pydl_file': pydl.__file__, 'suspicious': [k for k, c in enumerate(calls['cases']) if screen(c)]}, sys.stdout)
+        return
+    if isinstance(calls, dict) and calls.get('mode') == 'history':
+        json.dump({'pydl_file': pydl.__file__, 'histories': [history(h) for h in calls['histories']]}, sys.stdout)
+        return
     json.dump({'pydl_file': pydl.__file__, 'numpy': np.__version__, 'results': [one(c) for c in calls]}, sys.stdout)
 
 
